@@ -120,17 +120,44 @@ def key_part(ctx, res):
     captured = []
 
     class RecHash:
-        def __init__(self, *a, **k):
-            self.h = _hashlib.new(*a, **k)
+        """records every byte fed to the digest, whether through the constructor or update()"""
+        def __init__(self, h, data=b""):
+            self.h = h
+            if data:
+                captured.append(bytes(data))
 
         def update(self, b):
-            captured.append(b)
+            captured.append(bytes(b))
             self.h.update(b)
 
         def hexdigest(self):
             return self.h.hexdigest()
-    real = mem.hashlib
-    mem.hashlib = type("H", (), {"new": staticmethod(lambda *a, **k: RecHash(*a, **k))})
+
+        def digest(self):
+            return self.h.digest()
+
+    # intercept the digest constructors wherever memory.py gets them from: attributes of the hashlib module
+    # (hashlib.new(...), hashlib.md5(...)) and names imported from it (from hashlib import md5)
+    ctors = {n: getattr(_hashlib, n) for n in set(_hashlib.algorithms_guaranteed) | {"new"} if callable(getattr(_hashlib, n, None))}
+
+    def wrap(name, ctor):
+        def make(*a, **k):
+            data = k.get("data", b"")
+            if name == "new" and len(a) > 1:
+                data = a[1]
+            elif name != "new" and a:
+                data = a[0]
+            return RecHash(ctor(*a, **k), data)
+        return make
+    wrapped = {n: wrap(n, c) for n, c in ctors.items()}
+    local_names = {n: v for n, v in vars(mem).items() if any(v is c for c in ctors.values())}
+
+    def install(on):
+        for n, c in ctors.items():
+            setattr(_hashlib, n, wrapped[n] if on else c)
+        for n, v in local_names.items():
+            setattr(mem, n, next(wrapped[k] for k, c in ctors.items() if c is v) if on else v)
+    install(True)
     terms, metas = [], []
     try:
         alpha = ["t", "1", "0", "a", "b", ".", ":", "2", "10", "_", " "]
@@ -156,7 +183,7 @@ def key_part(ctx, res):
             terms.append(f"({cstr(task)}, {cstr(out)}, {cstr(hashed)})")
             metas.append(case)
     finally:
-        mem.hashlib = real
+        install(False)
     results, logs = coq_results("C01", KHEADER, terms, "check_key", shard=400, tag="keys")
     res.corr_checked += len(results)
     for ok, meta in zip(results, metas):
